@@ -12,11 +12,12 @@ import Driver.OpsFS
 import Driver.OpsApi
 import Driver.OpsGridFS
 import Driver.OpsSpec
+import Driver.OpsConc
 open Lean
 namespace Driver
 
 def allOps : List (String × Op) :=
-  opsCompare ++ opsMatch ++ opsApply ++ opsCodec ++ opsProject ++ opsFS ++ opsGridFS ++ opsSpec
+  opsCompare ++ opsMatch ++ opsApply ++ opsCodec ++ opsProject ++ opsFS ++ opsGridFS ++ opsSpec ++ Conc.opsConc
 
 def handle (st : DState) (line : String) : DState × Json :=
   match Json.parse line with
